@@ -208,6 +208,7 @@ class ReleasedCacheNative(Contract):
     variant = "released-cache"
     symbolic = False
     has_native = True
+    native_shards = 4
     props = ("C07",)
     bounded_scope = "file-backed 5-vertex curves (6 cell lists incl. a closed ring and a triangle) and surfaces (2) and a point cloud with vertex/cell data; parts read or not before the operation; remove_vertices / remove_cells with 4 index sets, or no removal at all (release through clear_array_attributes or through copy(clear_cache=True)); state compared right after the operation, after clear_array_attributes(recursive) and after re-opening the file"
 
